@@ -49,6 +49,12 @@ type Case struct {
 	// link to a directory elsewhere; deleting or replacing "the directory <root>/<name>" then means
 	// the link, never what it points to
 	Symlinked bool `json:"symlinked,omitempty"`
+	// LinkTarget (with Symlinked): "" the link's target holds an executable of the plugin's name,
+	// "empty" it holds other files only (so that a lookup reports "not installed")
+	LinkTarget string `json:"linkTarget,omitempty"`
+	// Alone: the plugin root holds nothing but what the case plants for the name (no other
+	// installed plugin): the root itself is not "<root>/<name>" either
+	Alone bool `json:"alone,omitempty"`
 }
 
 // single reports whether name is a single path component (the statement's criterion).
@@ -115,8 +121,10 @@ func newWorld(c Case) (*world, string, error) {
 	}
 	// some unrelated content that must survive everything
 	os.WriteFile(filepath.Join(w.base, "precious.txt"), []byte("precious"), 0o644)
-	os.MkdirAll(filepath.Join(w.root, "installed"), 0o755)
-	os.WriteFile(filepath.Join(w.root, "installed", "notation-installed"), script(w.marker, "installed"), 0o755)
+	if !c.Alone {
+		os.MkdirAll(filepath.Join(w.root, "installed"), 0o755)
+		os.WriteFile(filepath.Join(w.root, "installed", "notation-installed"), script(w.marker, "installed"), 0o755)
+	}
 	os.WriteFile(filepath.Join(filepath.Dir(w.root), "sibling.txt"), []byte("sibling of the plugin root"), 0o644)
 	return w, "", nil
 }
@@ -176,10 +184,12 @@ func (w *world) plantOne(name string) {
 }
 
 // plantLink makes <root>/<name> a symbolic link to a populated directory outside the plugin root.
-func (w *world) plantLink(name string) {
+func (w *world) plantLink(name, kind string) {
 	target := filepath.Join(w.base, "linked-target")
 	os.MkdirAll(filepath.Join(target, "sub"), 0o755)
-	os.WriteFile(filepath.Join(target, "notation-"+name), script(w.marker, name), 0o755)
+	if kind != "empty" {
+		os.WriteFile(filepath.Join(target, "notation-"+name), script(w.marker, name), 0o755)
+	}
 	os.WriteFile(filepath.Join(target, "data.txt"), []byte("somebody else's data"), 0o644)
 	os.WriteFile(filepath.Join(target, "sub", "more.txt"), []byte("more"), 0o644)
 	os.RemoveAll(filepath.Join(w.root, name))
@@ -270,7 +280,7 @@ func check(c Case) (skip string, key string, msg string) {
 	case "uninstall":
 		w.plant(c.Name)
 		if c.Symlinked && sure {
-			w.plantLink(c.Name)
+			w.plantLink(c.Name, c.LinkTarget)
 		}
 		before = snap()
 		err := mgr.Uninstall(ctx, c.Name)
@@ -314,7 +324,7 @@ func check(c Case) (skip string, key string, msg string) {
 		if !isSingle || !sure {
 			w.plant(c.Name) // decoys where an unvalidated clean-up / copy would act
 		} else if c.Symlinked {
-			w.plantLink(c.Name)
+			w.plantLink(c.Name, c.LinkTarget)
 		}
 		before = snap()
 		path := source
@@ -449,11 +459,21 @@ func TestC16_Names(t *testing.T) {
 		}
 		if plainForSure(c.Name) && (c.Op == "uninstall" || strings.HasPrefix(c.Op, "install")) {
 			c.Symlinked = rapid.IntRange(0, 2).Draw(rt, "symlinked") == 0
+			if c.Symlinked {
+				c.LinkTarget = rp.Pick(rt, "linkTarget", "", "empty")
+			}
+			c.Alone = c.Name != "installed" && rapid.IntRange(0, 2).Draw(rt, "alone") == 0
 		}
 		skip, key, msg := check(c)
 		cl := []string{"op=" + c.Op, "namekind=" + kind, fmt.Sprintf("depth=%d", c.Depth)}
 		if c.Symlinked {
 			cl = append(cl, "plugin-directory-is-symlink")
+			if c.LinkTarget == "empty" {
+				cl = append(cl, "symlink-target-without-executable")
+			}
+		}
+		if c.Alone {
+			cl = append(cl, "no-other-plugin-in-root")
 		}
 		if single(c.Name) {
 			cl = append(cl, "name=single-component")
@@ -466,7 +486,7 @@ func TestC16_Names(t *testing.T) {
 		if skip != "" {
 			cl = []string{"skipped=" + skip, "namekind=" + kind}
 		}
-		rec.Case(cl, skip == "" && !plainForSure(c.Name), stats.Fingerprint(c.Name, c.Depth, c.Op, c.Symlinked), func() any { return c })
+		rec.Case(cl, skip == "" && !plainForSure(c.Name), stats.Fingerprint(c.Name, c.Depth, c.Op, c.Symlinked, c.LinkTarget, c.Alone), func() any { return c })
 		if key == "harness" {
 			rt.Fatalf("harness: %s", msg)
 		}
